@@ -392,6 +392,9 @@ func c18Run(env *core.Env, idx int) core.CaseResult {
 	if idx >= 3 && idx < 3+4 {
 		c18DirectID(idx-3, &res)
 	}
+	if idx >= 7 && idx < 7+2 {
+		c18VendoredCopy(idx-7, &res)
+	}
 	res.NonTrivial = len(ext) >= 2 && twoPlaces > 0
 	res.Sample = map[string]interface{}{"documents": len(w.Docs), "definitions": len(defs), "external_documents": len(ext)}
 	return res
@@ -422,7 +425,9 @@ func c18DirectID(k int, res *core.CaseResult) {
 	run := func(cache spec.ResolutionCache) ([]byte, error, string) {
 		s := new(spec.Schema)
 		_ = json.Unmarshal(schemaText, s)
-		err, pan := guard(func() error { return spec.ExpandSchemaWithBasePath(s, cache, &spec.ExpandOptions{RelativeBase: gen.RootURL, PathLoader: loader}) })
+		err, pan := guard(func() error {
+			return spec.ExpandSchemaWithBasePath(s, cache, &spec.ExpandOptions{RelativeBase: gen.RootURL, PathLoader: loader})
+		})
 		b, _ := json.Marshal(s)
 		return b, err, pan
 	}
@@ -453,6 +458,69 @@ func c18DirectID(k int, res *core.CaseResult) {
 			res.Violate("cache-changes-outcome (schema with an id, "+c.name+")", fmt.Sprintf("%v %s", err, pan), wit)
 		case !bytes.Equal(ref, got):
 			res.Violate("cache-changes-result (schema with an id, "+c.name+")", fmt.Sprintf("%s instead of %s", core.Abbrev(string(got), 300), core.Abbrev(string(ref), 300)), wit)
+		}
+	}
+}
+
+// c18VendoredCopy: a document fetched from one location declares, in its top-level id, another location where a different version
+// lives; the schema refers first into the copy, then to the declared location. Whatever the cache knew beforehand, the second $ref
+// is answered by the document at the declared location.
+func c18VendoredCopy(k int, res *core.CaseResult) {
+	const copyURL, declared = "file:///w/a/vendor/item.json", "http://ids.example/c18/canonical/item.json"
+	docs := map[string]string{
+		copyURL:  `{"id":"` + declared + `","definitions":{"price":{"title":"price of the vendored copy","type":"number"}}}`,
+		declared: `{"definitions":{"price":{"title":"price at the declared location","type":"number","minimum":0}}}`,
+	}
+	text := []string{`{"title":"outer","allOf":[{"$ref":"vendor/item.json#/definitions/price"},{"$ref":"` + declared + `#/definitions/price"}]}`,
+		`{"title":"outer","items":[{"$ref":"vendor/item.json#/definitions/price"},{"$ref":"` + declared + `#/definitions/price"}]}`}[k%2]
+	var reqs []string
+	loader := func(u string) (json.RawMessage, error) {
+		reqs = append(reqs, u)
+		if d, ok := docs[u]; ok {
+			return json.RawMessage(d), nil
+		}
+		return nil, fmt.Errorf("no document at %s", u)
+	}
+	run := func(cache spec.ResolutionCache) ([]byte, error, string) {
+		s := new(spec.Schema)
+		_ = json.Unmarshal([]byte(text), s)
+		err, pan := guard(func() error {
+			return spec.ExpandSchemaWithBasePath(s, cache, &spec.ExpandOptions{RelativeBase: gen.RootURL, PathLoader: loader})
+		})
+		b, _ := json.Marshal(s)
+		return b, err, pan
+	}
+	ref, rerr, rpan := run(nil)
+	res.Evals++
+	if rerr != nil || rpan != "" {
+		res.Count("reference-run-failed", 1)
+		return
+	}
+	generic := func(u string) interface{} {
+		var g interface{}
+		_ = json.Unmarshal([]byte(docs[u]), &g)
+		return g
+	}
+	preCopy, preBoth := spec.VerifNewDefaultCache(), spec.VerifNewDefaultCache()
+	preCopy.Set(copyURL, generic(copyURL))
+	preBoth.Set(copyURL, generic(copyURL))
+	preBoth.Set(declared, generic(declared))
+	reused := spec.VerifNewDefaultCache()
+	_, _, _ = run(reused)
+	for _, c := range []struct {
+		name  string
+		cache spec.ResolutionCache
+	}{{"fresh cache", spec.VerifNewDefaultCache()}, {"vendored copy pre-loaded", preCopy}, {"both documents pre-loaded", preBoth}, {"reused from an earlier expansion", reused}} {
+		reqs = nil
+		got, err, pan := run(c.cache)
+		res.Evals++
+		res.Count("document-with-an-id-of-another-location", 1)
+		wit := map[string]interface{}{"schema": json.RawMessage(text), "documents": docs, "cache": c.name, "base": gen.RootURL, "requests": append([]string{}, reqs...)}
+		switch {
+		case pan != "" || err != nil:
+			res.Violate("cache-changes-outcome (document declaring another location, "+c.name+")", fmt.Sprintf("%v %s", err, pan), wit)
+		case !bytes.Equal(ref, got):
+			res.Violate("cache-changes-result (document declaring another location, "+c.name+")", fmt.Sprintf("%s instead of %s", core.Abbrev(string(got), 300), core.Abbrev(string(ref), 300)), wit)
 		}
 	}
 }
@@ -598,7 +666,7 @@ func init() {
 		Run:      c18Run,
 		Floors: func(env *core.Env) []string {
 			return []string{"entry.ExpandSpec", "entry.ExpandSchemaWithBasePath", "cache.fresh-library", "cache.fresh-wrapped", "cache.preloaded-subset", "cache.reused-library", "cache.reused-wrapped",
-				"cache.after-loader-fault", "cache-sets-observed", "many-documents-world", "id-scoped-world", "schema-with-id-at-a-document-location",
+				"cache.after-loader-fault", "cache-sets-observed", "many-documents-world", "id-scoped-world", "schema-with-id-at-a-document-location", "document-with-an-id-of-another-location",
 				"with-root.ExpandSchema", "with-root.ExpandParameterWithRoot", "with-root.ExpandResponseWithRoot", "with-root.external-documents-needed"}
 		},
 		Assumptions: []string{"pre-loaded entries are generic JSON documents stored under their canonical URL, as the loader would have produced them"},
